@@ -1053,6 +1053,61 @@ def check_local_index(ck, prog):
     ck.floor("C10-LOCALIDX", 1)
 
 
+def check_deep_free(ck, prog, rule="C10-DEEPFREE"):
+    """A lzma_index (its tree of Streams and Record groups) and an index_stream (its tree of groups) own what was appended to
+    them.  lzma_free() on such an object is correct only while nothing has been appended yet; once index_tree_append() /
+    lzma_index_append() could have run on it, only the deep destructors (lzma_index_end, index_stream_end) release everything."""
+    ck.rule(rule, "index.c: no lzma_free() of a lzma_index / index_stream on a path after something was appended to it")
+    n = 0
+    for f in sorted(prog.all_functions("liblzma"), key=lambda f: (f.file, f.line)):
+        if not f.blocks or not f.file.endswith("/index.c") or f.name in ("lzma_index_end", "index_stream_end", "index_tree_end",
+                                                                       "index_tree_node_end"):
+            continue
+        owners = {v["n"] for v in f.vars if v.get("ty", "").replace("const ", "").replace("restrict", "").replace(" ", "") in ("lzma_index*", "index_stream*")}
+        if not owners:
+            continue
+        for b, i, e in f.iter_elems():
+            for c in ex.calls(e, into_refs=False):
+                if c.get("fn") != "lzma_free" or not c["args"]:
+                    continue
+                a = ex.strip(c["args"][0])
+                if a is None or a.get("k") != "var" or a["n"] not in owners:
+                    continue
+                V = a["n"]
+                n += 1
+                ck.saw_function(f)
+                grow = set()
+                for bb, ii, ee in f.iter_elems():
+                    for c2 in ex.calls(ee, into_refs=False):
+                        if c2.get("fn") in ("index_tree_append", "lzma_index_append") and c2["args"]:
+                            a0 = ex.show(c2["args"][0])
+                            if a0 in ("&%s->streams" % V, "&%s->groups" % V, V):
+                                grow.add((bb.id, ii))
+                bad = None
+                for gb, gi in sorted(grow):
+                    if gb == b.id and gi < i:
+                        bad = gb
+                        break
+                    seen, st = set(), [y for y in f.blocks[gb].succs if y is not None]
+                    while st:
+                        x = st.pop()
+                        if x in seen:
+                            continue
+                        seen.add(x)
+                        if x == b.id:
+                            bad = gb
+                            break
+                        st.extend(y for y in f.blocks[x].succs if y is not None)
+                    if bad is not None:
+                        break
+                ck.ob(rule, "%s:%s" % (f.name, V), bad is None, common.where(f, c),
+                      "%s: lzma_free(%s) is reached only while nothing has been appended to it" % (f.name, V) if bad is None else
+                      "%s(): lzma_free(%s) can be reached after index_tree_append()/lzma_index_append() attached Streams or Record "
+                      "groups to `%s` (line %s): only the base structure is freed, everything appended so far is leaked" % (
+                          f.name, V, V, cfg.block_lines(f, bad)[0]), key="DEEPFREE:%s:%s" % (f.name, V))
+    ck.floor(rule, 2)
+
+
 SIZEKEY_EXCEPT = {
     # (buffer member, size member, storing function): reason
 }
@@ -1373,4 +1428,5 @@ def run(ck):
     check_sizekey(ck, prog)
     check_syncend(ck, prog)
     check_local_index(ck, prog)
+    check_deep_free(ck, prog)
     check_localown(ck, prog)
